@@ -88,6 +88,83 @@ Proof. intros comp tail. destruct comp; reflexivity. Qed.
 Print Assumptions C14_rgb_string.
 Print Assumptions C14_color256_string.
 
+(* ---------- rgb(...) / color256(...) strings, every layout: an optional bracket '[' or '(' around the
+   value(s) closed by ITS OWN counterpart (bracket_pair: none/none, "[" "]", "(" ")"), blanks (\s) around
+   the numbers, decimal or 0x-hex numbers; hex digits without 0x give RBad (ValueError) ---------- *)
+Theorem C14_rgb_layout3 : forall pre comp ob sp0 sp1 sp2 sp3 sp4 sp5 cb t1 t2 t3,
+  prefix_of pre comp -> bracket_pair ob cb = true ->
+  spaces sp0 = true -> spaces sp1 = true -> spaces sp2 = true ->
+  spaces sp3 = true -> spaces sp4 = true -> spaces sp5 = true ->
+  tok_wf t1 = true -> tok_wf t2 = true -> tok_wf t3 = true ->
+  parse_rgb_string (pre ++ S_ "rgb(" ++ layout3 ob sp0 sp1 sp2 sp3 sp4 sp5 cb t1 t2 t3) =
+  match tok_val t1, tok_val t2, tok_val t3 with
+  | Some a, Some b, Some c => RTexts (rgb3 a b c comp)
+  | _, _, _ => RBad
+  end.
+Proof. exact parse_rgb_layout3. Qed.
+Theorem C14_rgb_layout1 : forall pre comp ob sp0 sp1 cb t,
+  prefix_of pre comp -> bracket_pair ob cb = true ->
+  spaces sp0 = true -> spaces sp1 = true -> tok_wf t = true ->
+  parse_rgb_string (pre ++ S_ "rgb(" ++ layout1 ob sp0 sp1 cb t) =
+  match tok_val t with Some v => RTexts (rgb1 v comp) | None => RBad end.
+Proof. exact parse_rgb_layout1. Qed.
+Theorem C14_color256_layout : forall pre comp (british : bool) ob sp0 sp1 cb t,
+  prefix_of pre comp -> bracket_pair ob cb = true ->
+  spaces sp0 = true -> spaces sp1 = true -> tok_wf t = true ->
+  parse_rgb_string (pre ++ (if british then S_ "colour256(" else S_ "color256(") ++ layout1 ob sp0 sp1 cb t) =
+  match tok_val t with Some v => RTexts (color256 v comp) | None => RBad end.
+Proof. exact parse_color256_layout. Qed.
+Print Assumptions C14_rgb_layout3.
+Print Assumptions C14_rgb_layout1.
+Print Assumptions C14_color256_layout.
+
+(* the brackets must pair (repair of known finding F31): an opening and a closing that the defective
+   pattern took one by one - old_open: none, '[', '(' or ')' ; old_close: none, ')' or ']' - but that do
+   not belong together make the string no rgb()/color256() string at all, in every layout *)
+Theorem C14_rgb_brackets_must_pair : forall pre comp ob cb,
+  prefix_of pre comp -> old_open ob = true -> old_close cb = true -> bracket_pair ob cb = false ->
+  (forall sp0 sp1 sp2 sp3 sp4 sp5 t1 t2 t3,
+     spaces sp0 = true -> spaces sp1 = true -> spaces sp2 = true ->
+     spaces sp3 = true -> spaces sp4 = true -> spaces sp5 = true ->
+     tok_wf t1 = true -> tok_wf t2 = true -> tok_wf t3 = true ->
+     parse_rgb_string (pre ++ S_ "rgb(" ++ layout3 ob sp0 sp1 sp2 sp3 sp4 sp5 cb t1 t2 t3) = RNoMatch) /\
+  (forall sp0 sp1 t, spaces sp0 = true -> spaces sp1 = true -> tok_wf t = true ->
+     parse_rgb_string (pre ++ S_ "rgb(" ++ layout1 ob sp0 sp1 cb t) = RNoMatch) /\
+  (forall (british : bool) sp0 sp1 t, spaces sp0 = true -> spaces sp1 = true -> tok_wf t = true ->
+     parse_rgb_string (pre ++ (if british then S_ "colour256(" else S_ "color256(") ++ layout1 ob sp0 sp1 cb t) = RNoMatch).
+Proof. exact parse_rgb_mismatched_brackets. Qed.
+Print Assumptions C14_rgb_brackets_must_pair.
+
+(* the string ends right after the final ')' (repair of known finding F32): an accepted string followed by
+   one newline is no rgb()/color256() string.  (A newline BEFORE the closing bracket is white space
+   and stays accepted: Example newline_inside_ex in Proofs/ScrubProofs2.v.) *)
+Theorem C14_rgb_no_trailing_newline : forall pre comp ob cb,
+  prefix_of pre comp -> bracket_pair ob cb = true ->
+  (forall sp0 sp1 sp2 sp3 sp4 sp5 t1 t2 t3,
+     spaces sp0 = true -> spaces sp1 = true -> spaces sp2 = true ->
+     spaces sp3 = true -> spaces sp4 = true -> spaces sp5 = true ->
+     tok_wf t1 = true -> tok_wf t2 = true -> tok_wf t3 = true ->
+     parse_rgb_string ((pre ++ S_ "rgb(" ++ layout3 ob sp0 sp1 sp2 sp3 sp4 sp5 cb t1 t2 t3) ++ [NL]) = RNoMatch) /\
+  (forall sp0 sp1 t, spaces sp0 = true -> spaces sp1 = true -> tok_wf t = true ->
+     parse_rgb_string ((pre ++ S_ "rgb(" ++ layout1 ob sp0 sp1 cb t) ++ [NL]) = RNoMatch) /\
+  (forall (british : bool) sp0 sp1 t, spaces sp0 = true -> spaces sp1 = true -> tok_wf t = true ->
+     parse_rgb_string ((pre ++ (if british then S_ "colour256(" else S_ "color256(") ++ layout1 ob sp0 sp1 cb t) ++ [NL]) = RNoMatch).
+Proof. exact parse_rgb_trailing_newline. Qed.
+Print Assumptions C14_rgb_no_trailing_newline.
+
+(* concrete strings: refused since the repairs (and so invalid names for the scrubber), accepted as before *)
+Example C14_rgb_brackets_example :
+  parse_rgb_string (S_ "rgb()1,2,3)") = RNoMatch /\ parse_rgb_string (S_ "rgb(1,2,3))") = RNoMatch /\
+  parse_rgb_string (S_ "rgb([1,2,3)") = RNoMatch /\ parse_rgb_string (S_ "rgb((1,2,3])") = RNoMatch /\
+  parse_rgb_string (S_ "color256(7])") = RNoMatch /\ parse_rgb_string (S_ "rgb(1,2,3)" ++ [NL]) = RNoMatch /\
+  scrub (FStr (S_ "rgb([1,2,3)")) = Err ValueError /\ scrub (FStr (S_ "rgb(1,2,3)" ++ [NL])) = Err ValueError /\
+  scrub (FStr (S_ "rgb([1,2,3])")) = OK [S_ "38;2;1;2;3"] /\ scrub (FStr (S_ "rgb((1,2,3))")) = OK [S_ "38;2;1;2;3"] /\
+  scrub (FStr (S_ "bg_rgb([ 0x1f,  007 ,300 ])")) = OK [S_ "48;2;31;7;255"] /\
+  old_open (S_ ")") = true /\ old_close [] = true /\ bracket_pair (S_ ")") [] = false /\
+  old_open (S_ "[") = true /\ old_close (S_ ")") = true /\ bracket_pair (S_ "[") (S_ ")") = false /\
+  bracket_pair (S_ "[") (S_ "]") = true /\ prefix_of [] FG.
+Proof. repeat split; try (vm_compute; reflexivity). now right. Qed.
+
 (* the component arithmetic of the builders IS the code's: the two branches of _AnsiControlFn.rgb are
    re-translated from the Python source on every run (Gen/Fns.v) *)
 Theorem C14_rgb_is_code : forall r g b v comp,
